@@ -385,6 +385,15 @@ func (ex *Exec) applyContractSig(fr *Frame, ins ssa.Instruction, c *Contract, fn
 	if ex.dry != nil && len(c.Modifies) > 0 {
 		// cells reached through pointers are recorded by havocTarget
 	}
+	if !c.Pure {
+		// the callee may allocate: the allocation frontier moves to an unknown later point
+		na := ex.ts.Fresh("na", SInt)
+		ex.assume(ex.ts.Le(ex.st.na, na, true))
+		ex.st.na = na
+		if ex.dry != nil {
+			ex.dry.alloc = true
+		}
+	}
 	rt := resultType(sig)
 	var res Val
 	if rt != nil {
@@ -409,8 +418,10 @@ func (ex *Exec) applyContractSig(fr *Frame, ins ssa.Instruction, c *Contract, fn
 			ex.assume(ex.valEq(res, app, rt))
 		}
 	}
+	env.lenient = true
 	for _, en := range c.Ensures {
-		ex.assume(ex.evalBool(en.E, env))
+		// postconditions that talk about the callee's locals say nothing to a caller
+		ex.assume(ex.softBool(en.E, env))
 	}
 	return res
 }
@@ -608,6 +619,20 @@ func (ex *Exec) modTargets(e *Expr, env *Env) []modTarget {
 		}
 		return out
 	}
+	if e.K == ECall && e.Args[0].K == EIdent && e.Args[0].Name == "object" {
+		// the whole backing object of a slice (cheaper than capacity(): no per-index frame inside the object)
+		v := ex.eval(e.Args[1], env)
+		s, ok := v.(SliceV)
+		if !ok {
+			unsup("modifies: object of %T", v)
+		}
+		var out []modTarget
+		for _, r := range ex.elemRegionNames(s.Elem) {
+			ex.st.region(ex, r.name, ex.regionSort(r.lf, true))
+			out = append(out, modTarget{region: r.name, ref: s.Base, elem: true})
+		}
+		return out
+	}
 	if e.K == ECall && e.Args[0].K == EIdent && e.Args[0].Name == "capacity" {
 		v := ex.eval(e.Args[1], env)
 		s, ok := v.(SliceV)
@@ -780,6 +805,8 @@ func (ex *Exec) frameObligations(kind, site string, pos token.Pos, since *Snapsh
 // checkPost discharges the root function's postconditions and frame at a return.
 func (ex *Exec) checkPost(fr *Frame, rv []Val, ins *ssa.Return) {
 	c := ex.contract
+	// reachability (vacuity guard): the assumptions collected on the way to this return must be satisfiable
+	ex.reach[ex.siteOf(ins, "")] = append(ex.reach[ex.siteOf(ins, "")], append([]*Term(nil), ex.st.pc...))
 	if c == nil {
 		return
 	}
